@@ -15,7 +15,7 @@ LEAN_MODULES = ["Properties.C11", "Properties.Core", "Properties.Prov.Hints", "P
 RULE = (
     "exhaustive over flat tuple hints of length 1..4 (quick) / 1..5 (thorough) with annotated / plain positions mixed (plain = `int` or `Annotated[int, 'count']`), as parameter and as "
     "return, each element conforming, violating its own literal, or violating a binding shared with another parameter (a), values of the "
-    "declared length; one array object at two annotated positions (the second conforming or violating its own annotation); judged by the oracle over the flattened entry list with display names p, p[1], ... non-trivial = distinct line "
+    "declared length; a rejected call with elements waiting behind the failing one followed by conforming calls; one array object at two annotated positions (the second conforming or violating its own annotation); judged by the oracle over the flattened entry list with display names p, p[1], ... non-trivial = distinct line "
     "with >=1 annotated tuple position"
 )
 ELEMS = [("FloatTensor,0,a 2", (3, 2), (3, 5), (4, 2)), ("IntTensor,0,a", (3,), None, (5,)), ("-", None, None, None)]
@@ -59,7 +59,7 @@ def cases(tier, rng, run):
                             j = rng.choice(cand)
                             c0, _o, sh0 = specs[j].split(",", 2)
                             specs[j] = f"{c0},{rng.choice('1457')},{sh0}"   # `T | None`, Optional[T], `None | T`, Optional[Optional[T]]
-                            vals[j] = "N"
+                            vals[j] = "N" if rng.random() < 0.7 else "X"   # (X: neither None nor an array — optional does not excuse that)
                             others = [i for i, k in enumerate(kinds) if k != 2 and i != j and i != fault_pos]
                             if others and rng.random() < 0.3:
                                 # ... and None at a position whose hint has no `| None`: that element is not optional because another one is
@@ -114,10 +114,30 @@ def cases(tier, rng, run):
                 retv = ("U:" + "+".join([rv] * n_ret)) if ret.startswith("(") else rv
                 calls.append(f"C|{fid}|x|{xv}|{retv}")
             out.append(Case("HIST\t" + "\t".join(steps + calls + calls), "alias"))
+    # a rejected call whose failing element has further elements waiting behind it, then valid calls: what was left unchecked by
+    # the rejected call is nobody else's business
+    g2, g3, b2 = "T,0:float32,2.2", "T,0:float32,3.2", "T,0:float32,2.5"
+    for ret in (False, True):
+        for k in (2, 3):
+            hint = "(" + "+".join(["T0:0"] * k) + ")"
+            steps = ["A|T0|FloatTensor,0,a 2", f"D|f|-|x=T1:0|{hint}|-" if ret else f"D|f|-|t={hint}|-|-", "A|T1|FloatTensor,0,a 2"]
+            steps = [steps[0], steps[2], steps[1]]
+            bad = "U:" + "+".join([b2] + [g3] * (k - 1))
+            good = "U:" + "+".join([g2] * k)
+            calls = [f"C|f|x|{g2}|{bad}", f"C|f|x|{g2}|{good}", f"C|f|x|{g2}|{good}"] if ret else [f"C|f|t|{bad}|-", f"C|f|t|{good}|-", f"C|f|t|{good}|-"]
+            out.append(Case("HIST\t" + "\t".join(steps + calls), "leftover"))
     return out
 
 
 def judge(case, impl_out, spec):
+    if case.tag == "leftover":
+        parts = impl_out.split(" ## ")[:-1]
+        if len(parts) != 3 or " reject shape" not in " " + parts[0]:
+            return "the tuple whose first element violates its literal axis is not rejected with the shape error: " + impl_out
+        for k, part in enumerate(parts[1:], 1):
+            if part != "calls=1 ok":
+                return f"after a rejected call with elements still waiting behind the failing one, conforming call #{k} gives {part!r}"
+        return None
     if case.tag == "alias":
         bad = "T,0:float32,3" in case.line
         for part in impl_out.split(" ## ")[:-1]:
@@ -133,7 +153,7 @@ def judge(case, impl_out, spec):
     accepted = end == "ok"
     if callcommon.unsupported_first(c):
         if accepted:
-            return "None (or a non-array) at an annotated tuple position without `| None` was accepted"
+            return "None at an annotated tuple position without `| None`, or a value that is neither None nor an array, was accepted"
         return None
     ents = c.entries()
     if ents is None:
